@@ -133,6 +133,8 @@ pub const PATH_POOL: &[&str] = &[
     "/abs/p/Foo.aidl",
     "p/q/Foo.aidl",
     "B.AIDL",
+    "a.aidl.bak",
+    "a",
 ];
 
 pub fn path_for(i: usize) -> String {
